@@ -36,6 +36,65 @@ pub fn build_family<W: World>(cfg: &Cfg, alpha_name: &str, n: usize, cap: usize,
     v
 }
 
+/// States reached from `bases` by composing up to `depth` calls of a shaping alphabet (no growth in
+/// between): second operands whose shape needs several different calls to set up (an emptied main
+/// table full of tombstones next to a non-empty old one, a table shrunk mid-resize, ...).
+pub fn deep_family<W: World>(cfg: &Cfg, bases: &[Vec<Op>], alpha_name: &str, depth: usize, cap: usize, out: &mut Outcome) -> Vec<Vec<Op>> {
+    let alpha = alpha::by_name(alpha_name);
+    let mut seen: HashSet<u128> = HashSet::new();
+    let mut all: Vec<Vec<Op>> = vec![];
+    let mut frontier: Vec<Vec<Op>> = bases.to_vec();
+    for _ in 0..depth {
+        let mut next = vec![];
+        for h in &frontier {
+            reset_exec();
+            let ops = match build::<W>(cfg, h) {
+                Ok(w) => {
+                    let c = engine::ctx_of(&w, false, 0, 0);
+                    let ops = alpha(&c);
+                    w.discard();
+                    ops
+                }
+                Err(_) => continue,
+            };
+            for op in ops {
+                reset_exec();
+                out.executions += 1;
+                out.steps += h.len() as u64 + 1;
+                let mut h2 = h.clone();
+                h2.push(op);
+                match build::<W>(cfg, &h2).and_then(|mut w| match w.audit(true) {
+                    Ok(()) => Ok(w),
+                    Err(v) => {
+                        std::mem::forget(w);
+                        Err(v)
+                    }
+                }) {
+                    Ok(w) => {
+                        if seen.insert(w.key128()) {
+                            next.push(h2.clone());
+                            all.push(h2);
+                        }
+                        w.discard();
+                    }
+                    Err(v) => {
+                        out.viol_count += 1;
+                        if out.violations.len() < 6 {
+                            out.violations.push(FoundViol { kind: v.kind, msg: v.msg, history: h2, step: 0 });
+                        }
+                    }
+                }
+            }
+        }
+        frontier = next;
+    }
+    if all.len() > cap {
+        let n = all.len();
+        all = (0..cap).map(|i| all[i * n / cap].clone()).collect();
+    }
+    all
+}
+
 pub fn rename(h: &[Op], a: u32, b: u32) -> Vec<Op> {
     h.iter().map(|o| Op { k: o.k, key: o.key.wrapping_mul(a).wrapping_add(b), arg: o.arg }).collect()
 }
@@ -76,8 +135,20 @@ fn run_pairs<W: World>(spec: &ShardSpec, cur: Option<&str>, fam_alpha: &str, ren
     let part: usize = spec.extra.get("part").and_then(|s| s.parse().ok()).unwrap_or(0);
     let parts: usize = spec.extra.get("parts").and_then(|s| s.parse().ok()).unwrap_or(1);
     let fam = build_family::<W>(&cfg, fam_alpha, spec.n, cap, &mut out, cur);
+    // optional deep second operands: shaping calls composed to depth `deep` from a few growth positions
+    let deep: usize = spec.extra.get("deep").and_then(|s| s.parse().ok()).unwrap_or(0);
+    let fam_b: Vec<Vec<Op>> = if deep > 0 {
+        let ns: Vec<u32> = spec.extra.get("deep_ns").map(|s| s.split(',').filter_map(|x| x.parse().ok()).collect()).unwrap_or_else(|| vec![15, 29, 31]);
+        let first_op = fam.iter().find(|h| !h.is_empty()).map(|h| h[0].k).unwrap_or(OpK::Insert);
+        let bases: Vec<Vec<Op>> = ns.iter().map(|&n| (0..n).map(|k| Op::key(first_op, k)).collect()).collect();
+        let dcap: usize = spec.extra.get("deep_cap").and_then(|s| s.parse().ok()).unwrap_or(3000);
+        let shaping = if first_op == OpK::SInsert { "sdeepshape" } else { "deepshape" };
+        deep_family::<W>(&cfg, &bases, shaping, deep, dcap, &mut out)
+    } else {
+        fam.clone()
+    };
     let mut curf = CurFile::new(cur);
-    out.layers.push((fam.len() as u64, 0));
+    out.layers.push((fam.len() as u64, fam_b.len() as u64));
     let mut seen: HashSet<u128> = HashSet::new();
     let mut obs_seen: HashSet<u64> = HashSet::new();
     let mut sigs: HashSet<String> = HashSet::new();
@@ -85,7 +156,7 @@ fn run_pairs<W: World>(spec: &ShardSpec, cur: Option<&str>, fam_alpha: &str, ren
         if i % parts != part {
             continue;
         }
-        for hb0 in fam.iter() {
+        for hb0 in fam_b.iter() {
             for &(ra, rb, _) in renames {
                 let hb = rename(hb0, ra, rb);
                 for &(sa, sb) in seeds {
